@@ -14,6 +14,7 @@ import (
 	"net"
 	"os"
 	"os/exec"
+	"path/filepath"
 	"runtime"
 	"strings"
 	"sync"
@@ -151,10 +152,13 @@ type scen struct {
 	ops       []string
 	// unreliable variant
 	unrel bool
+	// the local end is in lastAck with only its FIN unacknowledged: the lastAck timer (4*RTT) must close
+	// the tube without Stop
+	lastAckCheck bool
 }
 
 func (s scen) String() string {
-	return fmt.Sprintf("#%d timeout=%v fault=%s@%d peerFirst=%v unreliable=%v ops=[%s]", s.id, s.timeout, s.fault, s.faultAt, s.peerFirst, s.unrel, strings.Join(s.ops, ";"))
+	return fmt.Sprintf("#%d timeout=%v fault=%s@%d peerFirst=%v unreliable=%v lastAckCheck=%v ops=[%s]", s.id, s.timeout, s.fault, s.faultAt, s.peerFirst, s.unrel, s.lastAckCheck, strings.Join(s.ops, ";"))
 }
 
 var opNames = []string{"c.Write", "c.Close", "c.WaitForClose", "c.Stop", "s.Write", "s.Close", "s.WaitForClose", "s.Stop", "c.Read", "s.Read", "sleep"}
@@ -351,27 +355,49 @@ func runScen(s scen) {
 				f = func() error { mux.Stop(); return nil }
 			}
 			// Close/Stop/WaitForClose run concurrently with what follows; Write/Read inline
-			if name == "Write" || name == "Read" {
-				ok, e, d := within(bound, f)
-				results = append(results, callRes{o, ok, e, d})
-			} else {
+			{
 				wg.Add(1)
+				resMu.Lock()
 				idx := len(results)
 				results = append(results, callRes{name: o})
+				resMu.Unlock()
+				fin := make(chan struct{})
 				go func(o string, f func() error, idx int) {
 					defer wg.Done()
-					ok, e, d := within(bound, f)
+					defer close(fin)
+					t0 := time.Now()
+					e := f()
+					es := ""
+					if e != nil {
+						es = e.Error()
+					}
 					resMu.Lock()
-					results[idx] = callRes{o, ok, e, d}
+					results[idx] = callRes{o, true, es, time.Since(t0)}
 					resMu.Unlock()
 				}(o, f, idx)
+				if name == "Write" || name == "Read" {
+					// normally immediate; if it blocks (tube not initiated yet, dead network) go on: the
+					// call stays outstanding and has to return once the muxers are stopped
+					select {
+					case <-fin:
+					case <-time.After(300 * time.Millisecond):
+					}
+				}
 				time.Sleep(time.Duration(i%3) * time.Millisecond)
 			}
 		}
 		if s.faultAt >= len(s.ops) {
 			applyFault()
 		}
-		wg.Wait()
+		if s.lastAckCheck {
+			okl, _, dl := within(4*time.Second, func() error { ct.WaitForClose(); return nil })
+			resMu.Lock()
+			results = append(results, callRes{"c.WaitForClose(lastAck timer, no Stop)", okl, "", dl})
+			resMu.Unlock()
+			if !okl {
+				fail("C16:lastack-timer-did-not-close", "local end in lastAck with only the FIN unacknowledged on a dead network: the tube was not closed by the lastAck timer within 4 s")
+			}
+		}
 		// the network stays as it is; both muxers are now stopped (if not already): must return
 		okc, _, dc := within(bound, func() error { cm.Stop(); return nil })
 		results = append(results, callRes{"final c.Stop", okc, "", dc})
@@ -397,7 +423,12 @@ func runScen(s scen) {
 		}
 		l.dead.Store(false)
 		oks, _, ds := within(bound, func() error { sm.Stop(); return nil })
+		resMu.Lock()
 		results = append(results, callRes{"final s.Stop", oks, "", ds})
+		resMu.Unlock()
+		// every call issued above must have returned now that both muxers were stopped
+		allBack, _, _ := within(bound, func() error { wg.Wait(); return nil })
+		_ = allBack
 		resMu.Lock()
 		for _, r := range results {
 			if !r.returned && r.name != "" {
@@ -488,6 +519,8 @@ func scenarios() []scen {
 		add(scen{seed: 7, timeout: tmo, fault: "dead", faultAt: 1, ops: []string{"c.Close", "s.Close", "c.Stop", "s.Stop"}})
 		add(scen{seed: 8, timeout: tmo, fault: "loss70", faultAt: 0, ops: []string{"c.Write", "s.Write", "c.Close", "s.Close", "c.Stop"}})
 		add(scen{seed: 9, timeout: tmo, fault: "dead", faultAt: 0, unrel: true, ops: []string{"c.Write", "c.Close", "c.Stop"}})
+		add(scen{seed: 10, timeout: false, fault: "dead", faultAt: 0, peerFirst: true, lastAckCheck: true, ops: []string{"c.Close"}})
+		add(scen{seed: 11, timeout: tmo, fault: "dead", faultAt: 0, unrel: true, ops: []string{"c.Write", "c.Close", "c.Write", "c.Close", "c.Stop"}})
 	}
 	n := hv.Scale(34, 600)
 	for i := 0; i < n; i++ {
@@ -564,4 +597,23 @@ func main() {
 		}()
 	}
 	wg.Wait()
+	// race detector reports of the children (GORACE log_path=race, exitcode=0)
+	if ms, _ := filepath.Glob("race.*"); len(ms) > 0 {
+		b, _ := os.ReadFile(ms[0])
+		txt := string(b)
+		if len(txt) > 1800 {
+			txt = txt[:1800]
+		}
+		first := ""
+		for _, l := range strings.Split(txt, "\n") {
+			if strings.Contains(l, ".go:") {
+				first = strings.TrimSpace(l)
+				break
+			}
+		}
+		hv.Emit(hv.Case{Class: "race-detector", Desc: "go race detector report: " + first, Spec: false, Sig: "C16:data-race", What: txt, NT: true,
+			Replay: map[string]interface{}{"report": txt}})
+	} else {
+		hv.Emit(hv.Case{Class: "race-detector", Desc: "no data race reported by the Go race detector in this run", Spec: true})
+	}
 }
